@@ -33,6 +33,20 @@ P.update({
          "Coq proof (validator = spec classifier) + differential correspondence on single-defect sentences", "5 C15"),
 })
 
+P.update({
+ "C08": ("Theorems C08_lists, C08_inverse, C08_inverse_only, C08_upstream_digest, C08_ten_languages: the ten tables read from internal/wordlist/*.go by the translator on this run equal the pinned canonical tables byte for byte and in order, are 2048 pairwise distinct non-empty valid-UTF-8 whitespace-free NFKD-stable words (finite domain 10 x 2048, enumerated completely by vm_compute, bound in the statement), list() selects each language's own table, mapping() inverts it; the pinned tables have the upstream SHA-256 digests (recomputed in Coq). Differential: all 2048 indices per language observed through NewMnemonicByEntropy, every word validated inside a sentence.",
+         "Coq proof by complete enumeration of generated tables + exhaustive API observation (10 x 2048)", "5 C08"),
+ "C13": ("Theorems C13_history_free, C13_any_reachable_state, C13_source_facts: for every finite history of the six entry points with any arguments and any normaliser, the once/maps state machine interpreted from the generated mapping() table returns what the history-free functions return (invariant: every built map is pointwise the index map of its own table); rests on computed facts about the current source: each case makes/fills/returns one map under its own once, and the package-level variables are a closed world where only those maps are written, inside once.Do. Not shown by a pure model: in-place mutation of caller memory - the harness passes entropy as a sub-slice with spare capacity and re-inspects caller-owned buffers, returned seeds and strings after later calls, in fresh processes.",
+         "Coq proof by induction over histories with a state invariant + computed inventory facts + history differential in fresh processes", "5 C13"),
+ "C14": ("Theorems C14_never_panics (+ per entry point): the model makes every table index, slice bound, big.Int division (incl. the uint wrap of 1<<(8-cs)), make() length and nil-map write an explicit Panic outcome and no Panic is reachable for any arguments (all byte strings, all of Z for Language and word counts, all read scripts) in any history, for any normaliser. Partial: panics or hangs inside dependencies and resource exhaustion are not expressible in the model; supported by a malformed stream under recover and a wall-clock limit (all Language values in a window and at int extremes, nil/short/oversized entropy, invalid UTF-8, combining runs, inputs up to 4 MiB).",
+         "Coq proof of totality of a panic-aware model (all inputs, all histories) + malformed-input sweep under recover/timeout", "5 C14"),
+})
+
+P.update({
+ "C07": ("Theorems C07_default_source, C07_unswapped, C07_function_of_bytes, C07_encoding_of_bytes: computed on the inventory regenerated from the source - the reader given to io.ReadFull is the package-level source variable, initialised to crypto/rand.Reader, with no write site in a guard-off build, no init(), no math/rand import, no environment reads; and NewMnemonic's result is the encoding of the first 4n/3 delivered bytes, hence a function of the source's bytes only. Partial: that crypto/rand.Reader is the OS CSPRNG and that no content-dependent branch exists for the default source cannot be shown by a model; supported by the harness (identity of the pre-swap source in a fresh process, also under every environment variable the package reads; every first/last byte value through a scripted source; distinctness and byte-frequency of default output).",
+         "Coq proof over the generated variable inventory + NewMnemonic determinism theorem + identity/statistics harness", "5 C07"),
+})
+
 NOT_YET = {}
 
 def main():
